@@ -398,19 +398,22 @@ def _r5(ctx):
             t = t.replace(U(call_), "CHG(%s)" % role)
         return t
 
-    def lin(e, at, sign=1, seen=frozenset(), depth=0):
+    term_conds = {}      # signed term text -> set of condition texts it was seen under
+
+    def lin(e, at, sign=1, seen=frozenset(), depth=0, conds=frozenset()):
         if depth > 40:
             return UNK5
         if C.const_num(e) == 0:
             return [()]
         if isinstance(e, ast.BinOp) and isinstance(e.op, (ast.Add, ast.Sub)):
-            l_ = lin(e.left, at, sign, seen, depth + 1)
-            r_ = lin(e.right, at, sign if isinstance(e.op, ast.Add) else -sign, seen, depth + 1)
+            l_ = lin(e.left, at, sign, seen, depth + 1, conds)
+            r_ = lin(e.right, at, sign if isinstance(e.op, ast.Add) else -sign, seen, depth + 1, conds)
             if l_ in (UNK5, CARRIED) or r_ in (UNK5, CARRIED):
                 return CARRIED if CARRIED in (l_, r_) else UNK5
             return [x + y for x in l_ for y in r_][:128]
         if isinstance(e, ast.IfExp):
-            b_, o_ = lin(e.body, at, sign, seen, depth + 1), lin(e.orelse, at, sign, seen, depth + 1)
+            tconds = frozenset(U(x) for x in C.conj_parts(e.test)) if isinstance(e.test, ast.BoolOp) and isinstance(e.test.op, ast.And) else frozenset([U(e.test)])
+            b_, o_ = lin(e.body, at, sign, seen, depth + 1, conds | tconds), lin(e.orelse, at, sign, seen, depth + 1, conds | frozenset("not " + t_ for t_ in tconds))
             if b_ in (UNK5, CARRIED) or o_ in (UNK5, CARRIED):
                 return CARRIED if CARRIED in (b_, o_) else UNK5
             return b_ + o_
@@ -423,11 +426,12 @@ def _r5(ctx):
             for d in ds:
                 if id(d) in seen or isinstance(d.stmt, str) or not C.in_subtree(d.stmt, loop):
                     return CARRIED
+                here = frozenset(("" if pol_ else "not ") + U(e_) for e_, pol_ in C.norm_fact_nodes(d.stmt, stop=loop))
                 if d.kind == "assign" and d.value is not None:
-                    r_ = lin(d.value, d.stmt, sign, seen | {id(d)}, depth + 1)
+                    r_ = lin(d.value, d.stmt, sign, seen | {id(d)}, depth + 1, here)
                 elif d.kind == "aug" and isinstance(d.stmt.op, (ast.Add, ast.Sub)):
                     l2 = lin(ast.Name(id=acc, ctx=ast.Load()), d.stmt, sign, seen | {id(d)}, depth + 1)
-                    r2 = lin(d.value, d.stmt, sign if isinstance(d.stmt.op, ast.Add) else -sign, seen | {id(d)}, depth + 1)
+                    r2 = lin(d.value, d.stmt, sign if isinstance(d.stmt.op, ast.Add) else -sign, seen | {id(d)}, depth + 1, here)
                     if l2 in (UNK5, CARRIED) or r2 in (UNK5, CARRIED):
                         return CARRIED if CARRIED in (l2, r2) else UNK5
                     r_ = [x + y for x in l2 for y in r2][:128]
@@ -437,7 +441,9 @@ def _r5(ctx):
                     return r_
                 out.extend(r_)
             return out[:128]
-        return [((("+" if sign > 0 else "-") + " " + term_text(e)),)]
+        tt = ("+" if sign > 0 else "-") + " " + term_text(e)
+        term_conds.setdefault(tt, set()).update(conds)
+        return [(tt,)]
 
     alts = lin(ast.Name(id=acc, ctx=ast.Load()), trues0[0]) if len(trues0) == 1 else UNK5
     ctx.judge(alts not in (UNK5, CARRIED), alts is not UNK5, "R5",
@@ -456,6 +462,26 @@ def _r5(ctx):
     alt = {"+ CHG(index)['value'] * %s.scale" % src: "+ %s.scale * CHG(index)['value']" % src}
     got_n = {g if g not in alt.values() else [k for k, v in alt.items() if v == g][0] for g in got}
     if alts not in (UNK5, CARRIED):
+        # a term may only depend on the operand part it is about: the store's offset counts whatever its indexing mode is
+        about = {"+ %s.offset.value" % src: {"offset"}, "- %s.offset.value" % mem: {"offset"}, "+ CHG(base)['value']": {"base"},
+                 "+ CHG(index)['value'] * %s.scale" % src: {"index", "scale"}}
+        for tt, conds_ in sorted(term_conds.items()):
+            parts_ok = about.get(tt if tt not in alt.values() else [k for k, v in alt.items() if v == tt][0])
+            if parts_ok is None:
+                continue
+            for ctext in sorted(conds_):
+                try:
+                    cnode = ast.parse(ctext[4:] if ctext.startswith("not ") else ctext, mode="eval").body
+                except SyntaxError:
+                    continue
+                foreign = sorted({x.attr for x in ast.walk(cnode) if isinstance(x, ast.Attribute) and isinstance(x.value, ast.Name)
+                                  and x.value.id in (src, mem) and x.attr not in parts_ok
+                                  and x.attr in ("pre_indexed", "post_indexed", "base", "index", "offset", "scale")})
+                if foreign and tt.split(" ", 1)[1].split(".")[0] in (src, mem):
+                    ctx.bad("R5", "term %s under a foreign condition" % tt, f.where(loop),
+                            "the term `%s` of the address difference is only counted under `%s`, a condition on another part of the "
+                            "operand (%s): e.g. the offset of a pre-indexed store still is part of the address it writes to" % (tt, ctext, foreign),
+                            f.qname, "address term %s conditioned on %s" % (tt, ",".join(foreign)))
         for wnt in sorted(want):
             ctx.check(wnt in got_n, "R5", "term %s" % wnt, f.where(loop),
                       "the address difference lacks the term `%s` (terms found: %s)" % (wnt, sorted(got)), f.qname,
